@@ -98,6 +98,11 @@ def strategy_e2e(draw):
     elif mode == "only_final":
         opts["radius_final"] = draw(st.sampled_from([0.0, 1e-12, 1e-6, 0.5, 5.0]))
     sp["constants"] = draw(constants())
+    # injected fault (one case in six): the update of the interpolation set reports an ill-conditioned system at
+    # some of its calls - a legitimate return value that real runs produce only late and in higher dimension;
+    # the solver then takes its geometry branch, in which every invariant must hold as well
+    if draw(st.integers(0, 5)) == 0:
+        sp["inject_ill"] = sorted(draw(st.sets(st.integers(1, 40), min_size=1, max_size=8)))
     return enc(sp)
 
 
@@ -131,8 +136,10 @@ GIVEN_SHARE = 0.7
 
 
 class TRTaps:
-    def __init__(self, trace, taps, out):
+    def __init__(self, trace, taps, out, inject_ill=None):
         self.t, self.taps, self.out = trace, taps, out
+        self.inject_ill = set(inject_ill or [])
+        self.n_updates = 0
         self.res_prev = None
         self.n_reductions = 0
         self.penalties = set()
@@ -177,6 +184,23 @@ class TRTaps:
                 return orig(fw)
             return method
 
+        def upd(orig):
+            def method(models, k_new, *a, **k):
+                fw = me.t.framework
+                if fw is not None and hasattr(fw, "_models") and fw.models is models \
+                        and int(k_new) == int(fw.best_index):
+                    me.out.fail("C18.replace_centre", "the interpolation point being replaced (index %d) is the "
+                                "centre of the trust region" % int(k_new))
+                r = orig(models, k_new, *a, **k)
+                me.n_updates += 1
+                if me.n_updates in me.inject_ill:
+                    me.out.label("ill-conditioning-injected")
+                    return True
+                return r
+            return method
+
+        import cobyqa.models as cm
+        self.taps.patch(cm.Models, "update_interpolation", upd)
         self.taps.patch(cf.TrustRegion, "set_best_index", remember)
         self.taps.patch(cf.TrustRegion, "get_trust_region_step", before_tr)
         self.taps.patch(cf.TrustRegion, "update_radius", after("update_radius"))
@@ -332,7 +356,7 @@ def run_case(spec):
     holder = {}
 
     def extra(trace, taps):
-        holder["tr"] = TRTaps(trace, taps, out)
+        holder["tr"] = TRTaps(trace, taps, out, inject_ill=dec(spec).get("inject_ill") if isinstance(spec, dict) else None)
         return holder["tr"]
 
     b, t = e2e.run(spec, extra_taps=extra)
